@@ -107,7 +107,31 @@ func floatFixSweep[S constraints.Float, D constraints.Integer](w *numWriter, rng
 	}
 	// the same inputs in random order through small multi-channel buffers (quiet and loud samples mixed)
 	w.start(&NEvent{Fam: "floatfix", Fn: fn, STy: sty, DTy: dty, Sd: floatBits[S](), Ds: b2i(isSigned[D]()), Dd: bitsOf[D](), Uo: 1})
-	shuffledBlocks(rng, conv, xs, 600, func(x S, y D) { w.emit(&NEvent{Op: "P", F: floatJ(float64(x)), Y: numOfInt(y)}) })
+	type pt struct {
+		x S
+		y D
+	}
+	var pts []pt
+	shuffledBlocks(rng, conv, xs, 600, func(x S, y D) {
+		if x == x {
+			pts = append(pts, pt{x, y})
+		}
+		w.emit(&NEvent{Op: "P", F: floatJ(float64(x)), Y: numOfInt(y)})
+	})
+	// the same points as one ordered scan (results from different positions of different small blocks)
+	sort.Slice(pts, func(i, j int) bool {
+		if pts[i].x != pts[j].x {
+			return pts[i].x < pts[j].x
+		}
+		return ord(pts[i].y) < ord(pts[j].y)
+	})
+	w.start(&NEvent{Fam: "floatfix", Fn: fn, STy: sty, DTy: dty, Sd: floatBits[S](), Ds: b2i(isSigned[D]()), Dd: bitsOf[D]()})
+	for i, p := range pts {
+		if i > 0 && p == pts[i-1] {
+			continue
+		}
+		w.emit(&NEvent{Op: "P", F: floatJ(float64(p.x)), Y: numOfInt(p.y)})
+	}
 }
 
 // floatFixChained: the source of the float -> fixed conversion is the very buffer object a fixed -> float conversion
@@ -179,7 +203,29 @@ func fixFloatSweep[S constraints.Integer, D constraints.Float](w *numWriter, rng
 		w.emit(&NEvent{Op: "RT", X: numOfInt(xs[i]), G: floatJ(float64(gs[i])), Z: numOfInt(zs[i])})
 	}
 	w.start(&NEvent{Fam: "fixfloat", Fn: fn, STy: sty, DTy: dty, Ss: b2i(isSigned[S]()), Sd: sd, Dd: floatBits[D](), P: p, Uo: 1})
-	shuffledBlocks(rng, conv, xs, 300, func(x S, y D) { w.emit(&NEvent{Op: "P", X: numOfInt(x), G: floatJ(float64(y))}) })
+	type pt struct {
+		x S
+		y D
+	}
+	var pts []pt
+	shuffledBlocks(rng, conv, xs, 300, func(x S, y D) {
+		pts = append(pts, pt{x, y})
+		w.emit(&NEvent{Op: "P", X: numOfInt(x), G: floatJ(float64(y))})
+	})
+	// the same points as one ordered scan (results from different positions of different small blocks)
+	sort.Slice(pts, func(i, j int) bool {
+		if pts[i].x != pts[j].x {
+			return ord(pts[i].x) < ord(pts[j].x)
+		}
+		return pts[i].y < pts[j].y
+	})
+	w.start(&NEvent{Fam: "fixfloat", Fn: fn, STy: sty, DTy: dty, Ss: b2i(isSigned[S]()), Sd: sd, Dd: floatBits[D](), P: p})
+	for i, q := range pts {
+		if i > 0 && q == pts[i-1] {
+			continue
+		}
+		w.emit(&NEvent{Op: "P", X: numOfInt(q.x), G: floatJ(float64(q.y))})
+	}
 	if exhaustive16 && sd == 32 && p == 53 { // thorough tier (through float64; float32 cannot hold 32-bit codes and nothing is claimed): the round trip of EVERY 32-bit code, as runs of constant z - x
 		fixFloatRoundTrips32(w, conv, back)
 	}
